@@ -333,7 +333,14 @@ fn ordered_pairs(tier: Tier, st: &mut Stats) {
     let res = par_explore(us.len(), |ui, st| {
         let u = &us[ui];
         let max_len = if u.alphabet.len() <= 5 { 3 } else { 2 };
-        let sentences = all_strings(&u.alphabet, max_len);
+        let mut sentences = all_strings(&u.alphabet, max_len);
+        // a few long sentences (lengths around 16 / 32 / 256) so that "long, then short" is covered
+        if ui % 4 == 0 {
+            for n in [17usize, 33, 255, 256, 257] {
+                sentences.push("ab".repeat(n / 2 + 1)[..n].to_string());
+                sentences.push(format!("{}c", "a".repeat(n - 1)));
+            }
+        }
         for &opts in &u.opts {
             let (d, _) = u.build().unwrap_or_else(|e| {
                 println!("MACHINERY: {} does not build: {e}", u.name);
